@@ -25,7 +25,9 @@ SCOPE = ["S", "fw", "extra"]
 def run(ctx, res):
     n = ctx.budget(300, 6000)
     nd = n * 7 // 10
-    cases = scenarios.directed_cases(ctx, "c10s", nd, scenarios.ota_history, VERSIONS)
+    # six short directed histories first: gwcheck re-evaluates the first six sessions inside Coq (vm_compute), which is slow
+    cases = scenarios.directed_cases(ctx, "c10x", 6, scenarios.ota_history, VERSIONS, length=(10, 16))
+    cases += scenarios.directed_cases(ctx, "c10s", nd - 6, scenarios.ota_history, VERSIONS)
     cases += gwcheck.gen_cases(ctx, "c10g", n - nd, length=(20, 60))
     recs = gwcheck.run_cases(ctx, res, cases, ["c10"], SCOPE, "c10")
     keys = {"session:all-blocks-fetched": "full_session_all_blocks", "update:restart-fetching": "restart_while_fetching",
